@@ -13,11 +13,18 @@
                      ast_shape t -> nested_ok t)
      idem_ok t       nested_ok t && self_ok t
      item_ok t       nested trees have no visibility, and idem_ok t if t contains a comment
+     mod_plain f     f is a path without list, attributes or comment (it may end in self:  std::io::self  from
+                     std::io::{self, Read}) and, if it has a single segment, that segment has no alias
+     flat_list ns    the flattened trees that take part in merging (C10)
+     nodup_flat l    no two trees of l with the same visibility and path
+     passthrough t   t has attributes or contains a comment (never flattened or merged, imports.rs:229)
      step cmp g ts   with_granularity cmp g (map (normalize cmp) ts): what one formatting pass does to a run
                      of use declarations before grouping and sorting (run_granularity of C10/Run.v)
    A second pass is modelled as the same function applied to the trees of the first output (from_ast of
    the printed output is the identity on output trees: not part of the model). *)
+From Coq Require Import Permutation.
 From V Require Import Base.Text C11.Ord C11.Model C17.Model C17.Lemmas.
+From V Require C02.Lemmas.
 
 (* sorting an already sorted group of declarations changes nothing (stable sort by a total preorder);
    with C11's vs_total_preorder / items_total_preorder this covers reordering of an already ordered group *)
@@ -32,6 +39,33 @@ Theorem sort_idem : forall (A : Type) (cmp : A -> A -> comparison),
 Proof. intros A cmp H l. apply Ord.sorted_isort_id. apply Ord.isort_sorted. exact H. Qed.
 Print Assumptions sort_idem.
 
+(* a second sort of ANY reordering of a sorted group gives the same group, when no two distinct elements
+   compare Equal (C11 sort_unique): the fixed point does not depend on how the output is read back *)
+Theorem sort_perm_idem : forall (A : Type) (cmp : A -> A -> comparison),
+  TotalPreorder cmp -> forall l l' : list A,
+  (forall x y, In x l -> In y l -> cmp x y = Eq -> x = y) ->
+  Permutation l' (isort cmp l) -> isort cmp l' = isort cmp l.
+Proof. exact V.C02.Lemmas.isort_perm_idem. Qed.
+Print Assumptions sort_perm_idem.
+
+(* idempotence does not depend on the sorting algorithm: every stable sort (slice::sort_by) is idempotent *)
+Theorem any_stable_sort_idem : forall (A : Type) (cmp : A -> A -> comparison) (srt : list A -> list A),
+  TotalPreorder cmp ->
+  (forall l, Permutation l (srt l) /\ SortedBy cmp (srt l) /\ StableWrt cmp l (srt l)) ->
+  forall l, srt (srt l) = srt l.
+Proof. exact V.C02.Lemmas.stable_sort_idem. Qed.
+Print Assumptions any_stable_sort_idem.
+
+(* the sorts of reorder.rs are idempotent: names by version_sort *)
+Theorem sort_names_idem : forall l, sort_names (sort_names l) = sort_names l.
+Proof. exact V.C02.Lemmas.sort_names_idem. Qed.
+Print Assumptions sort_names_idem.
+
+(* the same for mod / extern crate declarations, every style edition *)
+Theorem sort_items_idem : forall e l, sort_items e (sort_items e l) = sort_items e l.
+Proof. exact V.C02.Lemmas.sort_items_idem. Qed.
+Print Assumptions sort_items_idem.
+
 (* a file_lines selection is normalised to a fixed point *)
 Theorem ranges_normalize_idem : forall rs, normalize_ranges (normalize_ranges rs) = normalize_ranges rs.
 Proof. exact nr_idem. Qed.
@@ -39,7 +73,6 @@ Print Assumptions ranges_normalize_idem.
 
 (* ------------------------------------------------------------------ *)
 (* Part 2: the import pipeline (model of C10).  From here on insert/sort_by/normalize/item are C10's. *)
-From Coq Require Import Permutation.
 From V Require Import C10.Model C10.Lemmas C02.Lemmas.
 
 (* Ord for UseTree (style editions <= 2021) is antisymmetric for every char::is_uppercase / is_numeric *)
@@ -143,6 +176,48 @@ Theorem pipeline_idem_item : forall (cmp : tree -> tree -> comparison) (grp reor
 Proof. exact C02.Lemmas.pipeline_idem_item. Qed.
 Print Assumptions pipeline_idem_item.
 
+(* regroup_idem, Module, PARTIAL: proved when every flattened import is a plain path and none is repeated
+   (missing: a sole-self list  use a::{self};  and single-segment aliases  use a as b;  -- no counterexample
+   is known there).  The first output is a list of Module normal forms with pairwise different (visibility, module)
+   keys, and every reordering of such a list is a fixed point of the next pass *)
+Theorem regroup_idem_module_partial : forall (cmp : tree -> tree -> comparison) (ts O' : list tree),
+  GtAsym cmp -> forallb idem_ok ts = true ->
+  forallb mod_plain (flat_list (map (normalize cmp) ts)) = true ->
+  nodup_flat (flat_list (map (normalize cmp) ts)) = true ->
+  Permutation O' (step cmp Module ts) -> step cmp Module O' = O'.
+Proof. exact C02.Lemmas.regroup_idem_module_partial. Qed.
+Print Assumptions regroup_idem_module_partial.
+
+(* pipeline_idem, Module, PARTIAL (same hypotheses), every group_imports / reorder_imports setting *)
+Theorem pipeline_idem_module_partial : forall (cmp : tree -> tree -> comparison) (grp reorder : bool)
+                                              (ts : list tree),
+  GtAsym cmp -> forallb idem_ok ts = true ->
+  forallb mod_plain (flat_list (map (normalize cmp) ts)) = true ->
+  nodup_flat (flat_list (map (normalize cmp) ts)) = true ->
+  pipeline cmp Module grp reorder (concat (pipeline cmp Module grp reorder ts)) =
+  pipeline cmp Module grp reorder ts.
+Proof. exact C02.Lemmas.pipeline_idem_module_partial. Qed.
+Print Assumptions pipeline_idem_module_partial.
+
+(* regroup_idem, Module / Crate / One, PARTIAL: a run in which every declaration has attributes or a
+   comment is only normalized (missing: runs with a declaration that is flattened and merged; refuted
+   below for Crate and One even on plain distinct paths) *)
+Theorem regroup_idem_passthrough : forall (cmp : tree -> tree -> comparison) (g : granularity)
+                                          (ts O' : list tree),
+  GtAsym cmp -> merging g = true ->
+  forallb idem_ok ts = true -> forallb passthrough ts = true ->
+  Permutation O' (step cmp g ts) -> step cmp g O' = O'.
+Proof. exact C02.Lemmas.pass_stable. Qed.
+Print Assumptions regroup_idem_passthrough.
+
+Theorem pipeline_idem_passthrough : forall (cmp : tree -> tree -> comparison) (g : granularity)
+                                           (grp reorder : bool) (ts : list tree),
+  GtAsym cmp -> merging g = true ->
+  forallb idem_ok ts = true -> forallb passthrough ts = true ->
+  pipeline cmp g grp reorder (concat (pipeline cmp g grp reorder ts)) = pipeline cmp g grp reorder ts.
+Proof. exact C02.Lemmas.pipeline_idem_pass. Qed.
+Print Assumptions pipeline_idem_passthrough.
+
 (* REFUTED (SelfChain), Preserve, Crate, One; the regrouping alone (twice_differs) and the whole pipeline
    under every group_imports / reorder_imports setting (pipeline_twice_differs):  use a::self::self; *)
 Theorem regroup_idem_selfchain_refuted :
@@ -165,6 +240,7 @@ Print Assumptions regroup_idem_item_refuted.
 Theorem regroup_idem_module_refuted :
   exists ts, forallb ast_shape ts = true /\ forallb idem_ok ts = true /\
     BadClass cmp15 Module ts = false /\
+    forallb mod_plain (flat_list (map (normalize cmp15) ts)) = true /\
     twice_differs Module ts /\ pipeline_twice_differs Module ts.
 Proof. exact C02.Lemmas.regroup_idem_module_refuted. Qed.
 Print Assumptions regroup_idem_module_refuted.
